@@ -42,6 +42,7 @@ type c06Step struct {
 	Op     string   `json:"op"`     // wire name
 	Args   []string `json:"args"`   // wire arguments
 	Quoted bool     `json:"quoted,omitempty"`
+	Form   string   `json:"form,omitempty"` // which Lisp form renders the operation (not sent to the model)
 	// nested application: the argument written "$tmp" is the result of Inner, handed over without an
 	// intermediate variable (Nest 0: nested call, 1: lambda parameter, 2: element of a list)
 	Inner *c06Step `json:"inner,omitempty"`
@@ -103,6 +104,100 @@ var c06Ops = map[string]c06OpInfo{
 	"liststar1": {c06Share, []int{0}, false, -1},
 	"liststar2": {c06Ext, []int{1}, false, -1},
 	"delete":    {c06Destr, []int{1}, false, -1},
+	"concat":    {c06Fresh, []int{0, 1}, false, -1},
+	// lists built from argument lists (&rest, apply, multiple values, the mapping functions) and other
+	// functions that are not documented as destructive
+	"fresh1":    {c06Fresh, []int{1}, false, -1},    // args: fn, x
+	"fresh2":    {c06Fresh, []int{1, 2}, false, -1}, // args: fn, x, y
+	"revappend": {c06Ext, []int{0, 1}, false, -1},
+	"applyrest": {c06Share, []int{0}, false, -1},
+	"adjoin":    {c06Ext, []int{1}, false, -1},
+	"pushnew":   {c06Ext, []int{1}, false, 1},
+}
+
+// c06RestDefun is defined once per process: a function that returns its &rest list.
+const c06RestDefun = "(defun c06-rest (&rest p) p) (defun c06-rest-after (a &rest p) p)"
+
+// c06LitForm renders a list of literal values that reaches the program through an ARGUMENT LIST.
+func c06LitForm(form, vals string) string {
+	switch form {
+	case "funcallrest":
+		return strings.TrimSpace("(funcall (lambda (&rest p) p) "+vals) + ")"
+	case "defunrest":
+		return strings.TrimSpace("(c06-rest "+vals) + ")"
+	case "restafter":
+		return strings.TrimSpace("(c06-rest-after 0 "+vals) + ")"
+	case "applyspread":
+		return strings.TrimSpace("(apply (lambda (&rest p) p) "+vals) + " nil)"
+	case "mvlist":
+		return strings.TrimSpace("(multiple-value-list (values "+vals) + "))"
+	case "applylist":
+		return "(apply #'list (list " + vals + "))"
+	}
+	return strings.TrimSpace("(list "+vals) + ")"
+}
+
+func c06Fresh1Form(form, fn, x string) string {
+	if fn == "dedup" {
+		return fmt.Sprintf("(union %s nil)", x)
+	}
+	switch form {
+	case "copytree":
+		return fmt.Sprintf("(copy-tree %s)", x)
+	case "applylist":
+		return fmt.Sprintf("(apply #'list %s)", x)
+	case "mvlist":
+		return fmt.Sprintf("(multiple-value-list (values-list %s))", x)
+	case "mapcar":
+		return fmt.Sprintf("(mapcar (lambda (el) el) %s)", x)
+	case "maplist":
+		return fmt.Sprintf("(maplist (lambda (tl) (car tl)) %s)", x)
+	case "map":
+		return fmt.Sprintf("(map 'list (lambda (el) el) %s)", x)
+	case "mapcon":
+		return fmt.Sprintf("(mapcon (lambda (&rest p) (list (car (car p)))) %s)", x)
+	case "coerce":
+		return fmt.Sprintf("(coerce (coerce %s 'vector) 'list)", x)
+	case "reduce":
+		return fmt.Sprintf("(nreverse (reduce (lambda (acc el) (cons el acc)) %s :initial-value nil))", x)
+	case "restcopy":
+		return fmt.Sprintf("(apply (lambda (&rest p) (copy-list p)) %s)", x)
+	}
+	return fmt.Sprintf("(copy-seq %s)", x)
+}
+
+func c06Fresh2Form(form, fn, x, y string) string {
+	switch fn {
+	case "interleave":
+		switch form {
+		case "mapcanlist":
+			return fmt.Sprintf("(mapcan #'list %s %s)", x, y)
+		case "mapcan2":
+			return fmt.Sprintf("(mapcan (lambda (p q) (list p q)) %s %s)", x, y)
+		}
+		return fmt.Sprintf("(mapcan (lambda (&rest p) p) %s %s)", x, y)
+	case "firstpair":
+		if form == "carmapcar" {
+			return fmt.Sprintf("(car (mapcar (lambda (&rest p) p) %s %s))", x, y)
+		}
+		if form == "carmapcarlist" {
+			return fmt.Sprintf("(car (mapcar #'list %s %s))", x, y)
+		}
+		return fmt.Sprintf("(let (keep) (mapc (lambda (&rest p) (unless keep (setq keep p))) %s %s) keep)", x, y)
+	case "lastpair":
+		if form == "lastmapcar" {
+			return fmt.Sprintf("(car (last (mapcar (lambda (&rest p) p) %s %s)))", x, y)
+		}
+		if form == "lastmapcarlist" {
+			return fmt.Sprintf("(car (last (mapcar #'list %s %s)))", x, y)
+		}
+		return fmt.Sprintf("(let (keep) (mapc (lambda (&rest p) (setq keep p)) %s %s) keep)", x, y)
+	case "takemin":
+		return fmt.Sprintf("(mapcar (lambda (&rest p) (car p)) %s %s)", x, y)
+	case "union":
+		return fmt.Sprintf("(union %s %s)", x, y)
+	}
+	return "(error \"bad fresh2\")"
 }
 
 func c06Extending(op string) bool {
@@ -300,6 +395,25 @@ func (st c06Step) lisp() string {
 		form += ")"
 	case "delete":
 		form = c06SpecLisp("delete", a[0], a[1])
+	case "fresh1":
+		form = c06Fresh1Form(st.Form, a[0], a[1])
+	case "fresh2":
+		form = c06Fresh2Form(st.Form, a[0], a[1], a[2])
+	case "revappend":
+		form = fmt.Sprintf("(revappend %s %s)", a[0], a[1])
+	case "applyrest":
+		switch st.Form {
+		case "defun":
+			form = fmt.Sprintf("(apply 'c06-rest %s)", a[0])
+		case "mapl":
+			form = fmt.Sprintf("(let (keep) (mapl (lambda (&rest p) (unless keep (setq keep (car p)))) %s) keep)", a[0])
+		default:
+			form = fmt.Sprintf("(apply (lambda (&rest p) p) %s)", a[0])
+		}
+	case "adjoin":
+		form = fmt.Sprintf("(adjoin %s %s)", a[0], a[1])
+	case "pushnew":
+		form = fmt.Sprintf("(pushnew %s %s)", a[0], a[1])
 	default:
 		form = "(error \"unknown op\")"
 	}
@@ -418,7 +532,15 @@ func c06Eval(scope *slip.Scope, src string) (val slip.Object, ok bool, class str
 	return val, true, ""
 }
 
+var c06DefunOnce sync.Once
+
 func c06RunImpl(h c06Hist) []c06Obs {
+	c06DefunOnce.Do(func() {
+		if _, ok, class := c06Eval(slip.NewScope(), c06RestDefun); !ok {
+			fmt.Fprintln(os.Stderr, "C06: cannot define the helper functions:", class)
+			os.Exit(2)
+		}
+	})
 	scope := slip.NewScope()
 	declared := map[string]bool{}
 	for _, st := range h.Steps {
@@ -626,7 +748,7 @@ func c06Judge(h c06Hist, obs []c06Obs, reply []c06StepReply) (v c06Verdict, mach
 		info := c06Ops[st.Op]
 		v.Checked++
 		if st.Inner != nil {
-			c := origin{st.Inner.Op, i}
+			c := origin{c06OpName(*st.Inner), i}
 			if c06Ops[st.Inner.Op].kind == c06Share {
 				if va := st.Inner.varArgs(); len(va) > 0 {
 					if pc, ok := creator[va[0]]; ok {
@@ -657,8 +779,8 @@ func c06Judge(h c06Hist, obs []c06Obs, reply []c06StepReply) (v c06Verdict, mach
 			}
 			inPlace := func(op string) bool { return op == "add" || op == "nconc" || op == "rplacd" }
 			indep := func(op string) bool {
-				k := c06Ops[op].kind
-				return op != "lit" && (k == c06Fresh || k == c06Ext)
+				k := c06Ops[c06BaseOp(op)].kind
+				return (op != "lit" || strings.Contains(op, ":")) && (k == c06Fresh || k == c06Ext)
 			}
 			anyOp := func(op string) bool { return true }
 			order := []func(string) bool{indep, inPlace, anyOp}
@@ -742,7 +864,7 @@ func c06Judge(h c06Hist, obs []c06Obs, reply []c06StepReply) (v c06Verdict, mach
 				for _, a := range args {
 					for n, val := range prev {
 						if n != a && val != "" && (strings.HasSuffix(val, prev[a]) || strings.HasSuffix(prev[a], val)) && prev[a] != "" {
-							if creator[n].step >= 0 && (creator[n].op != "lit") {
+							if creator[n].step >= 0 && (c06BaseOp(creator[n].op) != "lit") {
 								v.Nontrivial = true
 							}
 						}
@@ -752,7 +874,7 @@ func c06Judge(h c06Hist, obs []c06Obs, reply []c06StepReply) (v c06Verdict, mach
 		}
 		// bookkeeping
 		if o.Res != "e" && st.Target != "-" {
-			c := origin{st.Op, i}
+			c := origin{c06OpName(st), i}
 			// the result of a tail-taking or in-place operation is (part of) its argument: it keeps
 			// the argument's creator
 			inherits := info.kind == c06Share || st.Op == "rplaca" || st.Op == "nreverse" || st.Op == "sort"
@@ -768,7 +890,7 @@ func c06Judge(h c06Hist, obs []c06Obs, reply []c06StepReply) (v c06Verdict, mach
 			}
 			creator[st.Target] = c
 		}
-		if o.Res != "e" && info.place >= 0 && st.Op == "push" {
+		if o.Res != "e" && info.place >= 0 && (st.Op == "push" || st.Op == "pushnew") {
 			creator[st.Args[info.place]] = origin{st.Op, i}
 		}
 		for n, val := range o.Vars {
@@ -778,11 +900,24 @@ func c06Judge(h c06Hist, obs []c06Obs, reply []c06StepReply) (v c06Verdict, mach
 	return v, nil
 }
 
+// c06OpName: the operation, with the Lisp form that rendered it when there are several
+func c06OpName(st c06Step) string {
+	if st.Form != "" {
+		return st.Op + ":" + st.Form
+	}
+	return st.Op
+}
+
+func c06BaseOp(name string) string {
+	op, _, _ := strings.Cut(name, ":")
+	return op
+}
+
 func c06Signature(h c06Hist, f *c06Fail) string {
 	st := h.Steps[f.Step]
 	switch f.Aspect {
 	case "result", "condition", "no-condition", "malformed", "wrong-assignment":
-		return fmt.Sprintf("op=%s aspect=%s", st.Op, f.Aspect)
+		return fmt.Sprintf("op=%s aspect=%s", c06OpName(st), f.Aspect)
 	}
 	return fmt.Sprintf("creator=%s exposer=%s aspect=%s", f.Creator, st.Op, f.Aspect)
 }
@@ -806,6 +941,14 @@ type c06Tmpl struct {
 	args    []string
 	nvars   int
 	variant bool // keyword / arity variant: used as a creator everywhere, as an exposer only in S3
+	form    string
+}
+
+// c06F marks a template as a variant rendered by the given Lisp form.
+func c06F(form, op string, args ...string) c06Tmpl {
+	t := c06V(op, args...)
+	t.form = form
+	return t
 }
 
 // c06V marks a template as a keyword variant.
@@ -868,6 +1011,22 @@ var c06Templates = []c06Tmpl{
 	c06V("remove", "gt:0", "$1"), c06V("remove", "gt:0,fromend", "$1"), c06V("delete", "gt:0", "$1"), c06V("subseq", "2", "2", "$1"), c06V("subseq", "3", "3", "$1"),
 	c06V("nthcdr", "3", "$1"), c06V("butlast", "4", "$1"), c06V("member", "gt:7", "$1"),
 	c06V("nthcdr", "1", "$1"), c06V("last", "3", "$1"), c06V("butlast", "3", "$1"), c06V("subseq", "1", "1", "$1"), c06V("subseq", "0", "1", "$1"),
+	// lists that come out of ARGUMENT LISTS and of the mapping functions, and further functions that are
+	// not documented as destructive: every one is a creator whose result must be independent
+	c06F("copyseq", "fresh1", "copy", "$1"), c06F("copytree", "fresh1", "copy", "$1"), c06F("applylist", "fresh1", "copy", "$1"),
+	c06F("mvlist", "fresh1", "copy", "$1"), c06F("mapcar", "fresh1", "copy", "$1"), c06F("maplist", "fresh1", "copy", "$1"),
+	c06F("map", "fresh1", "copy", "$1"), c06F("mapcon", "fresh1", "copy", "$1"), c06F("coerce", "fresh1", "copy", "$1"),
+	c06F("reduce", "fresh1", "copy", "$1"), c06F("restcopy", "fresh1", "copy", "$1"), c06F("", "fresh1", "dedup", "$1"),
+	c06F("mapcanrest", "fresh2", "interleave", "$1", "$2"), c06F("mapcanlist", "fresh2", "interleave", "$1", "$2"), c06F("mapcan2", "fresh2", "interleave", "$1", "$1"),
+	c06F("mapckeep", "fresh2", "firstpair", "$1", "$2"), c06F("carmapcar", "fresh2", "firstpair", "$1", "$2"), c06F("mapckeep", "fresh2", "firstpair", "$1", "$1"),
+	c06F("mapckeeplast", "fresh2", "lastpair", "$1", "$2"), c06F("lastmapcar", "fresh2", "lastpair", "$1", "$1"),
+	c06F("carmapcarlist", "fresh2", "firstpair", "$1", "$2"), c06F("lastmapcarlist", "fresh2", "lastpair", "$1", "$2"),
+	c06F("", "fresh2", "takemin", "$1", "$2"), c06F("", "fresh2", "takemin", "$2", "$1"), c06F("", "fresh2", "union", "$1", "$2"), c06F("", "fresh2", "union", "$1", "$1"),
+	c06F("", "revappend", "$1", "$2"), c06F("", "revappend", "$1", "nil"), c06F("", "revappend", "nil", "$1"), c06F("", "revappend", "$1", "$1"),
+	c06F("lambda", "applyrest", "$1"), c06F("defun", "applyrest", "$1"), c06F("mapl", "applyrest", "$1"),
+	c06F("", "adjoin", "2", "$1"), c06F("", "adjoin", "$v", "$1"), c06F("", "pushnew", "3", "$1"), c06F("", "pushnew", "$v", "$1"),
+	c06F("funcallrest", "lit", "$v.$w"), c06F("defunrest", "lit", "$v.$w"), c06F("restafter", "lit", "$v.$w"), c06F("applyspread", "lit", "$v.$w"),
+	c06F("mvlist", "lit", "$v.$w"), c06F("applylist", "lit", "$v.$w"), c06F("funcallrest", "lit", ""),
 }
 
 func (t c06Tmpl) inst(g *c06Gen, target, v1, v2 string) c06Step {
@@ -891,7 +1050,10 @@ func (t c06Tmpl) inst(g *c06Gen, target, v1, v2 string) c06Step {
 	if c06Ops[t.op].atomRes {
 		target = "-"
 	}
-	return c06Step{Target: target, Op: t.op, Args: args}
+	if t.op == "lit" && len(args) == 1 && args[0] == "" {
+		args = nil
+	}
+	return c06Step{Target: target, Op: t.op, Args: args, Form: t.form}
 }
 
 func c06Lit(target, vals string, quoted bool) c06Step {
@@ -969,6 +1131,9 @@ func c06SweepPairs() []c06Hist {
 			if c06Ops[cr.op].atomRes {
 				continue
 			}
+			if cr.form != "" && flavour != 1 && flavour != 2 {
+				continue // the many renderings of one operation: two slice geometries (spare capacity)
+			}
 			for ei, ex := range c06Templates {
 				if ex.variant {
 					continue
@@ -1013,6 +1178,9 @@ func c06SweepShort() []c06Hist {
 				}
 				for ci, cr := range c06Templates {
 					if c06Ops[cr.op].atomRes {
+						continue
+					}
+					if cr.form != "" && (flavour == 1 || li == 2 || li == 4) {
 						continue
 					}
 					for ei, ex := range exposers {
@@ -1072,6 +1240,9 @@ func c06SweepNested() []c06Hist {
 					// inner calls are non-destructive: nothing is observable between the two calls, so
 					// the model's prediction for the intermediate state must be exact
 					if c06Ops[cr.op].atomRes || c06Ops[cr.op].place >= 0 || c06Destructive(cr.op) {
+						continue
+					}
+					if cr.form != "" && (flavour != 2 || li == 2 || li == 4) {
 						continue
 					}
 					for ei, ex := range outers {
@@ -1735,7 +1906,12 @@ func runC06(c *lib.Ctx) {
 	// composite generators avoid the construct of the listed findings (never excused there)
 	avoidListed := c.Findings.Listed(c.Prop, "creator=")
 	c.Ev.Coverage["composite_avoids_second_in_place_extension"] = avoidListed
-	nRandom := c.Scale(40000, 400000)
+	nRandom := c.Scale(40000, 300000)
+	if c.GenBroken != "" {
+		// a proof obligation over the regenerated code no longer checks: search harder for a failing input
+		nRandom *= 3
+		c.Ev.Coverage["witness_search_for_broken_obligation"] = c.GenBroken
+	}
 	batch := 20000
 	total := 0
 	for total < nRandom {
@@ -1780,6 +1956,8 @@ func runC06(c *lib.Ctx) {
 		c.Ev.Coverage["exhaustive_histories"] = exh
 		c.Ev.Coverage["exhaustive_alphabets"] = map[string]int{"depth2": len(a2), "depth3": len(a3), "depth4": len(a4)}
 	}
+	c.Ev.Coverage["k_gen"] = "Gen/ListProgs.lean: the Call/Place methods of 24 list functions translated from the Go source into SliceProg programs; Theorems/GenC06, GenC06b prove for all lists and indices that each returns the value-level model's value, never faults, writes no argument storage unless destructive, and returns fresh storage or a tail of the argument. Gen/ListUses.lean: flow-insensitive uses of argument storage in 19 further functions (remove/delete loops, member, the mapping functions, concatenate, coerce); Theorems/GenC06c: no write, no window"
+	c.Ev.Coverage["operation_forms"] = len(c06Templates)
 	c.Ev.Coverage["traces_validated_against_impl"] = c.Ev.Coverage["steps_checked"]
 	c.Ev.Coverage["rule"] = "case = operation history over a pool of named lists; after every step the result and the contents of every live variable are compared: result = value-level model on the implementation's current argument values; a variable may differ from its previous print only if the cons-cell heap model says it may; extending operations never overwrite. non-trivial = the history applies a destructive or extending operation to a list that has another live reference; distinct by history text"
 }
